@@ -29,6 +29,7 @@ let frame_of proto kind =
   | "ip6cp", k -> (match cframe_of k with Some c -> Some (FrIp6cp c) | None -> None)
   | "pap", "req" -> Some FrPapReq | "pap", "req_bad" -> Some FrPapBad | "pap", "other" -> Some FrPapOther
   | "chap", "resp" -> Some FrChapResp | "chap", "resp_bad" -> Some FrChapBad | "chap", "other" -> Some FrChapOther
+  | "ip6", "dh_sol" -> Some FrDh6Sol | "ip6", "dh_req" -> Some FrDh6Req
   | "ip6", "rs" -> Some FrRs | "ip6", "ns" -> Some FrNs | "ip6", "junk" -> Some FrIp6Junk
   | "unk", "ip4" -> Some FrUnkProto | "unk", "ccp" -> Some FrUnkProto | "unk", "short" -> Some FrShort
   | _ -> None
@@ -53,6 +54,7 @@ let show_out (o : out) : string option =
   | OChap c -> Some ("C" ^ string_of_int (n c)) | OIpcp c -> Some ("I" ^ string_of_int (n c))
   | OIp6cp c -> Some ("V" ^ string_of_int (n c)) | ORa -> Some "RA" | ONa -> Some "NA"
   | OReq k -> Some ("Q" ^ string_of_int (n k)) | OLifeA -> Some "lifeA" | OLifeR -> Some "lifeR"
+  | ODh6Adv -> Some "ADV6" | ODh6Reply -> Some "REPLY6" | OSb6Add -> Some "sb6+"
   | OSbAdd -> Some "sbadd" | OSbDel -> Some "sbdel" | OProg -> Some "prog"
   | GAlloc | GLcpDown | GLcpUp -> None
 let show_phase = function PDead -> "D" | PEstablish -> "E" | PAuth -> "A" | PNetwork -> "N" | POpen -> "O" | PTerminate -> "T"
@@ -72,15 +74,12 @@ let run_pppoe (rt : bool) (rep : vr) (flav : string) (toks : string list) : stri
       | None -> "badev:" ^ tok
       | Some e ->
         let st_before = !st in
-        let (st', outs) = (if rt then step_rt rep !st e else step rep !st e) in
+        let (st', outs) = step rep !st e in
         st := st';
         Array.iteri (fun i m -> match m with
           | None -> ()
           | Some m -> mons.(i) <- mon_run (nat_of_int i) [(e, outs)] m;
-            (* the teardown after a reject is a termination of that slot *)
-            (match mons.(i), reject_target rep st_before e with
-             | Some _, Some j when rt && int_of_nat j = i -> mons.(i) <- Some mon0
-             | _ -> ());
+
             if mons.(i) = None && !mon = "ok" then mon := "VIOLATION@" ^ string_of_int i) mons;
         let os = List.filter_map (fun (i, o) -> match show_out o with
           | None -> None
@@ -195,7 +194,7 @@ let () =
     | "pppoe" :: rest ->
       let flav = flavour_of il in
       if flav <> "cur" && flav <> "rfc" then print_endline ("badflavour:" ^ flav) else
-      print_endline (try run_pppoe rep { vrep = true; vrfc = (flav = "rfc") } flav rest with e -> "modelerr:" ^ Printexc.to_string e)
+      print_endline (try run_pppoe rep { vrep = rep; vrfc = (flav = "rfc") } flav rest with e -> "modelerr:" ^ Printexc.to_string e)
     | ["radius"; fb; srv; at] ->
       let fb = (fb = "1") in
       let srv = (match srv with "accept" -> SrvAccept | "reject" -> SrvReject | "other" -> SrvOtherCode | _ -> SrvNoAnswer) in
